@@ -56,6 +56,9 @@ pub enum ModelId {
     Ext32768,
     Ext65535,
     Ext65535c666,
+    /// 100x60, natively BGR: init programs and returns the address mode with the colour
+    /// order bit inverted relative to the options
+    ExtQuirk,
 }
 
 pub const BUILTIN: [ModelId; 14] = [
@@ -74,7 +77,7 @@ pub const BUILTIN: [ModelId; 14] = [
     ModelId::ST7789,
     ModelId::ST7796,
 ];
-pub const EXTERNAL: [ModelId; 12] = [
+pub const EXTERNAL: [ModelId; 13] = [
     ModelId::Ext1x1,
     ModelId::Ext2x3,
     ModelId::Ext7x5,
@@ -87,6 +90,7 @@ pub const EXTERNAL: [ModelId; 12] = [
     ModelId::Ext32768,
     ModelId::Ext65535,
     ModelId::Ext65535c666,
+    ModelId::ExtQuirk,
 ];
 
 /// The `impl Model for <name>` items the harness knows in /repo/src/models.
@@ -139,6 +143,7 @@ impl ModelId {
             Ext1x65535 => (1, 65535),
             Ext32768 => (32768, 32768),
             Ext65535 | Ext65535c666 => (65535, 65535),
+            ExtQuirk => (100, 60),
         }
     }
     pub fn bits(self) -> u8 {
@@ -174,12 +179,15 @@ pub enum Tr {
     L1S,
     L1P8,
     L1P16,
+    /// the serial recorder handed to the driver as `&mut T` (the crate's
+    /// forwarding `impl Interface for &mut T`)
+    L1Ref,
 }
-pub const ALL_TR: [Tr; 6] = [Tr::Spi, Tr::P8, Tr::P16, Tr::L1S, Tr::L1P8, Tr::L1P16];
+pub const ALL_TR: [Tr; 7] = [Tr::Spi, Tr::P8, Tr::P16, Tr::L1S, Tr::L1P8, Tr::L1P16, Tr::L1Ref];
 impl Tr {
     pub fn kind(self) -> Kind {
         match self {
-            Tr::Spi | Tr::L1S => Kind::Serial,
+            Tr::Spi | Tr::L1S | Tr::L1Ref => Kind::Serial,
             Tr::P8 | Tr::L1P8 => Kind::Par8,
             Tr::P16 | Tr::L1P16 => Kind::Par16,
         }
@@ -202,6 +210,7 @@ impl Tr {
             Tr::L1S => "l1-serial",
             Tr::L1P8 => "l1-par8",
             Tr::L1P16 => "l1-par16",
+            Tr::L1Ref => "l1-serial-by-ref",
         }
     }
     /// can `Builder` express this colour depth on this transport?
@@ -485,6 +494,43 @@ impl<const W: u16, const H: u16, C: RgbColor + 'static> MkModel for Ext<W, H, C>
     }
 }
 
+/// External model of a natively-BGR panel: the address mode it programs (and returns, as the
+/// trait asks) has the colour order inverted relative to the options.
+pub struct ExtQ;
+impl Model for ExtQ {
+    type ColorFormat = Rgb565;
+    const FRAMEBUFFER_SIZE: (u16, u16) = (100, 60);
+    fn init<DELAY, DI>(
+        &mut self,
+        di: &mut DI,
+        delay: &mut DELAY,
+        options: &ModelOptions,
+    ) -> Result<SetAddressMode, ModelInitError<DI::Error>>
+    where
+        DELAY: DelayNs,
+        DI: Interface,
+    {
+        let swapped = match options.color_order {
+            ColorOrder::Rgb => ColorOrder::Bgr,
+            ColorOrder::Bgr => ColorOrder::Rgb,
+        };
+        let madctl = SetAddressMode::from(options).with_color_order(swapped);
+        di.write_command(madctl)?;
+        di.write_command(SetInvertMode::new(options.invert_colors))?;
+        let pf = PixelFormat::with_all(BitsPerPixel::from_rgb_color::<Rgb565>());
+        di.write_command(SetPixelFormat::new(pf))?;
+        di.write_command(ExitSleepMode)?;
+        delay.delay_us(120_000);
+        di.write_command(SetDisplayOn)?;
+        Ok(madctl)
+    }
+}
+impl MkModel for ExtQ {
+    fn mk() -> Self {
+        ExtQ
+    }
+}
+
 // ------------------------------------------------------------------ transports
 
 pub trait Transport: 'static {
@@ -592,6 +638,26 @@ impl Transport for TL1P16 {
     }
 }
 
+pub struct RefKeep(*mut L1<u8, KSerial>);
+impl Drop for RefKeep {
+    fn drop(&mut self) {
+        // SAFETY: created by Box::into_raw in TL1Ref::make; the display that borrowed it
+        // is dropped first (field order in RigImpl)
+        unsafe { drop(Box::from_raw(self.0)) }
+    }
+}
+pub struct TL1Ref;
+impl Transport for TL1Ref {
+    type DI = &'static mut L1<u8, KSerial>;
+    type E = Fault;
+    type Keep = RefKeep;
+    fn make(tl: &Tl, _: usize) -> (Self::DI, RefKeep) {
+        let raw = Box::into_raw(Box::new(L1::<u8, KSerial>::new(tl)));
+        // SAFETY: lives until RefKeep is dropped, after the display
+        (unsafe { &mut *raw }, RefKeep(raw))
+    }
+}
+
 // ------------------------------------------------------------------ Rig
 
 pub trait Rig {
@@ -634,6 +700,14 @@ impl<I: Iterator> Iterator for Counting<'_, I> {
             std::panic::panic_any(BudgetExceeded { ops: *self.n });
         }
         self.inner.next()
+    }
+    fn nth(&mut self, n: usize) -> Option<I::Item> {
+        // skipped items count as pulled; the limit guards against endless pulling
+        *self.n = self.n.saturating_add(n as u64 + 1);
+        if *self.n > self.limit {
+            std::panic::panic_any(BudgetExceeded { ops: *self.n });
+        }
+        self.inner.nth(n)
     }
 }
 
@@ -793,6 +867,7 @@ fn go565<M: MkModel<ColorFormat = Rgb565>>(cfg: &DispCfg, tl: &Tl) -> Built {
         Tr::L1S => go::<M, TL1S>(cfg, tl),
         Tr::L1P8 => go::<M, TL1P8>(cfg, tl),
         Tr::L1P16 => go::<M, TL1P16>(cfg, tl),
+        Tr::L1Ref => go::<M, TL1Ref>(cfg, tl),
     }
 }
 fn go666<M: MkModel<ColorFormat = Rgb666>>(cfg: &DispCfg, tl: &Tl) -> Built {
@@ -801,6 +876,7 @@ fn go666<M: MkModel<ColorFormat = Rgb666>>(cfg: &DispCfg, tl: &Tl) -> Built {
         Tr::P8 => go::<M, TP8>(cfg, tl),
         Tr::L1S => go::<M, TL1S>(cfg, tl),
         Tr::L1P8 => go::<M, TL1P8>(cfg, tl),
+        Tr::L1Ref => go::<M, TL1Ref>(cfg, tl),
         Tr::P16 | Tr::L1P16 => panic!("harness: an Rgb666 model on a 16-bit bus does not type-check"),
     }
 }
@@ -835,6 +911,7 @@ pub fn build(cfg: &DispCfg, tl: &Tl) -> Built {
         Ext32768 => go565::<Ext<32768, 32768, Rgb565>>(cfg, tl),
         Ext65535 => go565::<Ext<65535, 65535, Rgb565>>(cfg, tl),
         Ext65535c666 => go666::<Ext<65535, 65535, Rgb666>>(cfg, tl),
+        ExtQuirk => go565::<ExtQ>(cfg, tl),
     }
 }
 
